@@ -507,7 +507,7 @@ func main() {
 		return
 	}
 
-	n := r.N(20000, 1500000)
+	n := r.N(200000, 3000000)
 	mine := 0
 	for i := 0; i < n; i++ {
 		if !r.Mine(i) {
